@@ -192,12 +192,46 @@ func vCheck(g *SymbolGraph, m *vModel) (string, string) {
 	return "", ""
 }
 
+// vGone: the nodes that a removal of node r takes with it according to the statement - "exactly those dependants
+// left without any remaining dependency", a fixpoint: an existing node goes when it depended on a node that goes
+// and none of its dependencies is an existing node that stays. Chains only pass through nodes that are removed
+// by this very operation: a key that is not a node does not hand the removal on.
+func vGone(m *vModel, r int) map[int]bool {
+	gone := map[int]bool{r: true}
+	for changed := true; changed; {
+		changed = false
+		for i := 0; i < vNumKeys; i++ {
+			if !m.nodes[i] || gone[i] {
+				continue
+			}
+			lost, kept := false, false
+			for e := range m.edges {
+				if e.from != i {
+					continue
+				}
+				if gone[e.to] {
+					lost = true
+				} else if m.nodes[e.to] {
+					kept = true
+				}
+			}
+			if lost && !kept {
+				gone[i] = true
+				changed = true
+			}
+		}
+	}
+	return gone
+}
+
 func vApply(g *SymbolGraph, m *vModel, o vOp) (string, string) {
 	switch o.op {
 	case 0:
 		wasThere, oldVer := m.nodes[o.a], m.vers[o.a]
 		dep := map[int]bool{}
+		var goneReadd map[int]bool
 		if wasThere && oldVer != o.ver {
+			goneReadd = vGone(m, o.a)
 			var up func(int)
 			up = func(n int) {
 				for e := range m.edges {
@@ -239,13 +273,9 @@ func vApply(g *SymbolGraph, m *vModel, o vOp) (string, string) {
 			}
 			for i := 0; i < vNumKeys; i++ {
 				if m.nodes[i] && dep[i] && i != o.a {
-					has := false
-					for e := range m.edges {
-						if e.from == i && (m.nodes[e.to] || e.to == o.a) {
-							has = true
-						}
-					}
-					if !has {
+					// (a dependant must go iff the removal of the stale node reaches it through nodes that go themselves;
+					// a dependency on a key that was no node to begin with is not something this operation took away)
+					if goneReadd[i] {
 						return "readd-orphan-kept", fmt.Sprintf("re-adding %c under a newer version kept dependant %c although it has no remaining dependency", 'a'+o.a, 'a'+i)
 					}
 				}
@@ -298,30 +328,7 @@ func vApply(g *SymbolGraph, m *vModel, o vOp) (string, string) {
 		}
 		up(o.a)
 		// the statement: exactly those dependants go that are left without any remaining dependency (a fixpoint)
-		gone := map[int]bool{o.a: true}
-		for changed := true; changed; {
-			changed = false
-			for i := 0; i < vNumKeys; i++ {
-				if !m.nodes[i] || gone[i] {
-					continue
-				}
-				lost, kept := false, false
-				for e := range m.edges {
-					if e.from != i {
-						continue
-					}
-					if gone[e.to] {
-						lost = true
-					} else if m.nodes[e.to] {
-						kept = true
-					}
-				}
-				if lost && !kept {
-					gone[i] = true
-					changed = true
-				}
-			}
-		}
+		gone := vGone(m, o.a)
 		g.RemoveNode(vKeys[o.a])
 		if g.Exists(vKeys[o.a]) {
 			return "removenode-still-there", fmt.Sprintf("RemoveNode(%c) left the node in place", 'a'+o.a)
@@ -348,16 +355,8 @@ func vApply(g *SymbolGraph, m *vModel, o vOp) (string, string) {
 		// surviving direct dependants must still have a dependency on an existing node
 		for i := 0; i < vNumKeys; i++ {
 			if m.nodes[i] && dep[i] {
-				has := false
-				for e := range m.edges {
-					if e.from == i && m.nodes[e.to] {
-						has = true
-					}
-				}
-				direct := false
-				_ = direct
-				if !has {
-					// only direct dependants are examined by the cascade
+				if gone[i] {
+					// (a dependant must go iff the removal reaches it through nodes that go themselves)
 					return "removenode-orphan-kept", fmt.Sprintf("RemoveNode(%c) kept dependant %c although it has no remaining dependency", 'a'+o.a, 'a'+i)
 				}
 			}
